@@ -14,7 +14,7 @@ from typing import Dict, List, Optional, Set
 from ..index import AnalysisError, call_name, norm, norm1
 from .attrs import fold_class_list
 from ..sem import Sem, built_container, inline_private_helpers
-from .common import calls, enclosing, fctx, in_body, is_name, method_calls, pmatch, stmts
+from .common import calls, enclosing, enclosing_all, fctx, in_body, is_name, method_calls, pmatch, stmts
 
 LEVEL = "other"
 EXPLANATION = (
@@ -90,6 +90,66 @@ def _dict_normal(S: Sem, e: ast.AST, at: int):
             conds.append(norm(S._subst(c_, sub)))
         return norm(tv.elts[0]), norm(tv.elts[1]), src, conds
     return None
+
+
+def _broadcast_shape_rule(r3, MS, m, oth: str) -> None:
+    """mul_array(other, axes): `other` is reshaped to the rank of the data with the size of its i-th axis at position axes[i] and 1 elsewhere.
+    Decided for the two constructions in use: a comprehension over range(data.ndim) testing `j in axes`, or a list of ones filled by stores."""
+    axp = next((p_ for p_ in m.params if p_ == "axes"), None)
+    rs = [c for c in ast.walk(m.node) if isinstance(c, ast.Call) and isinstance(c.func, ast.Attribute) and c.func.attr == "reshape" and norm(c.func.value) == oth and c.args]
+    if axp is None or len(rs) != 1:
+        r3.expect(False, "", m, m.node, "EnergyResult.mul_array: the `axes` parameter / the single `other.reshape(shape)` was not found")
+        return
+    arg = rs[0].args[0]
+    at = MS.du.node_of_expr(rs[0])
+    shp = MS.resolve(arg, at)
+    while isinstance(shp, ast.Call) and call_name(shp) in ("tuple", "list") and len(shp.args) == 1:
+        shp = shp.args[0]
+    ok = None
+    why = ""
+    if isinstance(shp, (ast.GeneratorExp, ast.ListComp)) and len(shp.generators) == 1 and isinstance(shp.generators[0].target, ast.Name):
+        j = shp.generators[0].target.id
+        it = norm(shp.generators[0].iter).replace(" ", "")
+        e = shp.elt
+        ok = it in ("range(self.data.ndim)", "range(len(self.data.shape))") and isinstance(e, ast.IfExp) and norm(e.test) == f"{j} in {axp}" \
+            and norm(e.body) == f"self.data.shape[{j}]" and norm(e.orelse) == "1"
+        why = f"`{norm1(shp, 90)}` is not (data.shape[j] if j in {axp} else 1) for j in range(data.ndim)"
+    if ok is None and isinstance(arg, ast.Call) and call_name(arg) in ("tuple", "list") and len(arg.args) == 1 and isinstance(arg.args[0], ast.Name):
+        arg = arg.args[0]
+    if ok is None and isinstance(arg, ast.Name):
+        ds = [d for d in MS.du.reaching(arg.id, at) if d.kind == "assign"]
+        ones = len(ds) == 1 and ds[0].value is not None and norm(ds[0].value).replace(" ", "") in ("[1]*self.data.ndim", "[1]*len(self.data.shape)", "[1]*self.data.ndim")
+        stores = [st for st in ast.walk(m.node) if isinstance(st, ast.Assign) and isinstance(st.targets[0], ast.Subscript) and norm(st.targets[0].value) == arg.id]
+        if ones and stores:
+            ok = True
+            for st in stores:
+                lp = next((l for l in enclosing_all(MS.pm, st, ast.For)), None)
+                iv = None
+                if lp is not None and isinstance(lp.iter, ast.Call) and call_name(lp.iter) == "enumerate" and isinstance(lp.target, ast.Tuple) and len(lp.target.elts) == 2 \
+                        and MS.rnorm(lp.iter.args[0], MS.cfg.node(lp)) in ("self.data.shape", "np.shape(self.data)"):
+                    # one pass over the axes of the data: axis j keeps its size iff j is one of the chosen axes
+                    iv, dv = norm(lp.target.elts[0]), norm(lp.target.elts[1])
+                    pos, val = norm(st.targets[0].slice), norm(st.value)
+                    guarded = any(isinstance(g_, ast.If) and norm(g_.test) == f"{iv} in {axp}" and any(st is x for b_ in g_.body for x in ast.walk(b_))
+                                  for g_ in enclosing_all(MS.pm, st, ast.If))
+                    if not (pos == iv and val in (dv, f"self.data.shape[{iv}]") and guarded):
+                        ok = False
+                        why = f"`{norm1(st)}` does not keep the size of data axis {iv} exactly when {iv} is one of `{axp}`"
+                elif lp is not None and isinstance(lp.iter, ast.Call) and call_name(lp.iter) == "enumerate" and isinstance(lp.target, ast.Tuple) and len(lp.target.elts) == 2 \
+                        and norm(lp.iter.args[0]) in (f"{oth}.shape", f"np.shape({oth})"):
+                    iv, dv = norm(lp.target.elts[0]), norm(lp.target.elts[1])
+                    pos, val = norm(st.targets[0].slice), norm(st.value)
+                    good = pos == f"{axp}[{iv}]" and val in (dv, f"self.data.shape[{axp}[{iv}]]", f"{oth}.shape[{iv}]")
+                    if not good:
+                        ok = False
+                        why = (f"`{norm1(st)}` puts the size of axis {iv} of `{oth}` at position `{pos}` of the broadcast shape; it belongs at position {axp}[{iv}] "
+                               f"(the data axis it multiplies): for axes that are not the leading ones the array scales the wrong axis of the data")
+                else:
+                    ok = None
+    if ok is None:
+        r3.expect(False, "", m, rs[0], f"EnergyResult.mul_array: the broadcast shape `{norm1(arg)}` is built in a form the rule does not follow")
+    else:
+        r3.check(ok, "mul_array: the i-th axis of the array is placed on data axis axes[i] (1 elsewhere)", m, rs[0], why, stmt="mul_array broadcast shape")
 
 
 def run(ctx) -> None:
@@ -353,6 +413,8 @@ def run(ctx) -> None:
                 okd = okd or (bool(m_) and m_[0][0] is dres)
         r3.check(okd, f"EnergyResult.{mname}: data = {frag}", m, m.node,
                  f"EnergyResult.{mname} does not combine the data element-wise (`{frag}`)", stmt=frag)
+        if mname == "mul_array" and okd:
+            _broadcast_shape_rule(r3, MS, m, oth)
     def returns_alg(m, want, what: str) -> bool:
         """every value returned by method m equals the rational expression `want(a, b)` in (self, second parameter)"""
         from ..algebra import Rat, to_rat
